@@ -365,7 +365,7 @@ def run_check(ctx, pid, theorems_min=1):
         concrete = [(f, o) for (f, o) in mine if f["kind"] in ("ORACLE", "ABORT")]
         diverge = [(f, o) for (f, o) in mine if f["kind"] in ("XFAIL", "PARSE")]
         for f, ops in concrete:
-            key = (f["kind"], f["rule"], f["opname"])
+            key = (f["kind"], f.get("prop"), f["rule"])
             if key in reported or len(reported) >= 6:
                 continue
             reported[key] = report(tools, f, ops, found_input=True)
@@ -381,7 +381,7 @@ def run_check(ctx, pid, theorems_min=1):
             hits = [(f, o) for (f, o) in fails[before:] if relevant(pid, f) and f["kind"] in ("ORACLE", "ABORT")]
             if hits:
                 for f, ops in hits:
-                    key = (f["kind"], f["rule"], f["opname"])
+                    key = (f["kind"], f.get("prop"), f["rule"])
                     if key in reported or len(reported) >= 6:
                         continue
                     reported[key] = report(tools, f, ops, found_input=True)
